@@ -9,7 +9,8 @@ if ! git -C "$W/repo" apply "$PATCH"; then echo "patch does not apply"; git -C /
 cd /verif
 VERIF_REPO="$W/repo" VERIF_EVIDENCE_DIR="$W/evidence" VERIF_REPLAY_DIR="$W/replays" ./check "$ID" "$TIER" > "$W/out.txt" 2> "$W/err.txt"
 rc=$?
-grep -E "^(VIOLATION|KNOWN-FINDING)" "$W/out.txt" | cut -c1-200 | head -12
+grep -E "^VIOLATION" "$W/out.txt" | cut -c1-200 | head -12
+echo "known-finding lines: $(grep -c "^KNOWN-FINDING" "$W/out.txt")"
 tail -1 "$W/out.txt"
 echo "exit=$rc"
 git -C /repo worktree remove --force "$W/repo"
